@@ -123,3 +123,30 @@ impl CaseWriter {
         std::fs::write(self.dir.join("meta.json"), serde_json::to_string_pretty(&meta).unwrap()).unwrap();
     }
 }
+
+// ---- watchdog: a case that makes no progress for WATCHDOG_SECS is a hang of the implementation
+use std::sync::atomic::{AtomicU64, Ordering};
+static LAST_BEAT: AtomicU64 = AtomicU64::new(0);
+static CURRENT: std::sync::Mutex<String> = std::sync::Mutex::new(String::new());
+pub const WATCHDOG_SECS: u64 = 30;
+fn now() -> u64 {
+    std::time::SystemTime::now().duration_since(std::time::UNIX_EPOCH).unwrap().as_secs()
+}
+pub fn heartbeat() {
+    LAST_BEAT.store(now(), Ordering::Relaxed);
+}
+pub fn describe_current(s: &str) {
+    *CURRENT.lock().unwrap() = s.to_string();
+    heartbeat();
+}
+pub fn start_watchdog() {
+    heartbeat();
+    std::thread::spawn(|| loop {
+        std::thread::sleep(std::time::Duration::from_secs(1));
+        let last = LAST_BEAT.load(Ordering::Relaxed);
+        if now().saturating_sub(last) > WATCHDOG_SECS {
+            eprintln!("HANG: the implementation made no progress for {}s in: {}", WATCHDOG_SECS, CURRENT.lock().unwrap());
+            std::process::exit(42);
+        }
+    });
+}
